@@ -71,7 +71,17 @@ func c15BasePlan() *Plan {
 		}}}
 	dep2.Table = model.Table{Name: "t_dep", Columns: []model.Col{{Name: "c_who2", Type: "bytea"}, {Name: "c_note2", Type: "text"}},
 		Unique: [][]string{{"ig_name", "src_name", "block_num", "tx_idx", "log_idx", "abi_idx"}}, Index: [][]string{{"c_who2"}, {"c_note2"}}}
-	p.Decls = []*model.Decl{ref, dep, dep2}
+	// a disabled integration: it runs no task, but its table is still
+	// created at start-up, so its strings are positions too
+	off := &model.Decl{Name: "off0", Enabled: false, Sources: []model.SrcRef{{Name: "s0", Start: 2}},
+		Event: &model.Event{Name: "Paused", Type: "event", Inputs: []model.Input{
+			{Name: "who", Type: "address", Indexed: true, Column: "c_offwho"},
+			{Name: "memo", Type: "string", Column: "c_offmemo"},
+		}},
+		Notification: &model.Notification{Columns: []string{"c_offmemo"}}}
+	off.Table = model.Table{Name: "t_off", Columns: []model.Col{{Name: "c_offwho", Type: "bytea"}, {Name: "c_offmemo", Type: "text"}},
+		Unique: [][]string{{"ig_name", "src_name", "block_num", "tx_idx", "log_idx", "abi_idx"}}, Index: [][]string{{"c_offwho"}}}
+	p.Decls = []*model.Decl{ref, dep, dep2, off}
 	p.Content.Events = []EventSpec{{Event: ref.Event}, {Event: dep.Event}, {Event: dep2.Event}}
 	p.Content.Seeded = []SeededLogs{{Event: ref.Event, AddrInput: 0, UpTo: 2}}
 	p.ScriptChain = []ScriptedChain{{AtPos: 9, Pair: "s0/dep", Src: "s0", Action: "reorg", Depth: 2, NewLen: 3}}
